@@ -28,13 +28,15 @@ so that every dropped attribute / unregistered class / broken from_dict is its o
 import copy
 import inspect
 import json
+import os
 import random
+import sys
 
 from vf import core
 from vf.gen import species as S
 
 ID = 'C11'
-N = {'quick': 5000, 'thorough': 100000}
+N = {'quick': 4500, 'thorough': 100000}
 NT_RULE = ('one object tree per case: class drawn uniformly from the 33 classes of the quantifier, '
            'attributes and nested objects drawn from a PRNG seeded per case index (after directed '
            'witnesses of every pre-finding); 1-3 encode/decode cycles and 2-3 evaluation conditions; '
@@ -106,6 +108,12 @@ ASSUMPTIONS = [
     'attributes are re-assigned on the live object (and coefficient sets given to SingleNasa9) as list / '
     'tuple / ndarray, scalars as python float / int or numpy float; numpy INTEGER scalars are telemetry '
     'only (extra.outside_documented_type: the encoder refuses them; the spreadsheet route yields python ints)',
+    'a user notes dictionary whose \'class\' entry is EXACTLY a string of the class registry is an object '
+    'to the object hook by design and is telemetry only (extra.notes_with_registry_class_string); every '
+    'other bookkeeping key / value combination in notes is a verdict stratum',
+    'decoding in a fresh interpreter that imported only pmutt.io.json is part of "encode-decode applied '
+    'once": a sample of the encoded texts (every class in every run) is decoded in a subprocess and must '
+    'give the same structure and top-level getter values as the in-process decode',
     'a gas species built with add_gas_P_adj=False is exercised as telemetry only '
     '(extra.add_gas_P_adj_False): the flag is not an attribute of the object, see GEN_NO_P_ADJ',
 ]
@@ -132,6 +140,81 @@ DESCRIPTORS = ['delta_H', 'rev_delta_H', 'reactants_H', 'products_H', 'delta_E',
                'reactants_E', 'products_E']
 
 
+BOOKKEEPING_KEYS = ['class', 'type', '_id', 'reaction_str', 'intercepts', 'gas_phase']
+# what the unchanged library writes under its bookkeeping keys (refreshed at run time from the
+# to_dict() output of every class, see _bookkeeping_values)
+_BK_STATIC = {'type': ['nasa', 'nasa9', 'singlenasa9', 'shomate', 'empiricalbase', 'zacros'],
+              'class': ["<class 'pmutt.empirical.nasa.Nasa'>", "<class 'pmutt.eos.IdealGasEOS'>",
+                        "<class 'pmutt.statmech.StatMech'>"],
+              'reaction_str': ['H2+0.50O2=H2O'], '_id': [], 'intercepts': [], 'gas_phase': []}
+_BK = {}
+_BK_BUSY = [False]
+
+
+def _bookkeeping_values():
+    """key -> sorted strings the library under test itself writes for that key, collected from the
+    dictionary form of one object of every class (falls back to the static table)"""
+    if _BK:
+        return _BK
+    if _BK_BUSY[0]:
+        return {k: sorted(v) for k, v in _BK_STATIC.items()}
+    found = {k: set(v) for k, v in _BK_STATIC.items()}
+    _BK_BUSY[0] = True
+
+    def rec(d):
+        if isinstance(d, dict):
+            own = isinstance(d.get('class'), str) and d['class'].startswith("<class 'pmutt")
+            for k, v in d.items():
+                if own and k in found and isinstance(v, str):
+                    found[k].add(v)
+                rec(v)
+        elif isinstance(d, (list, tuple)):
+            for v in d:
+                rec(v)
+    try:
+        r = random.Random('C11:bookkeeping')
+        for cls in TOP_CLASSES:
+            try:
+                rec(build(g_top(r, cls)).to_dict())
+            except Exception:                      # noqa: a class that cannot be built / written
+                pass
+    except Exception:                              # noqa
+        pass
+    finally:
+        _BK_BUSY[0] = False
+    for k, v in found.items():
+        _BK[k] = sorted(v)
+    return _BK
+
+
+def g_notes(rng):
+    """notes attribute: None / str / JSON dict, and now and then a dict whose KEYS are the
+    serialisation's own bookkeeping keys with VALUES the library itself writes for such keys
+    (exact, case variants, the other key's values) or arbitrary ones"""
+    if _BK_BUSY[0]:
+        return None
+    if rng.random() > 0.3:
+        return copy.deepcopy(rng.choice(NOTES))
+    bk = _bookkeeping_values()
+    out = {'source': 'Burcat'}
+    for key in rng.sample(BOOKKEEPING_KEYS, rng.randint(1, 2)):
+        how = rng.choice(['lib', 'lib', 'case', 'other_key', 'arbitrary'])
+        if key == 'class' and how == 'lib':
+            how = 'case'      # an exact registry string under 'class' IS an object by design (telemetry)
+        pool = bk.get(key) or bk['type']
+        if how == 'lib':
+            v = rng.choice(pool)
+        elif how == 'case':
+            v = rng.choice(pool)
+            v = rng.choice([v.upper(), v.title(), v + ' ', ' ' + v])
+        elif how == 'other_key':
+            v = rng.choice(bk['type'] if key != 'type' else bk['reaction_str'] + ['nasa '])
+        else:
+            v = rng.choice(['alkane', 'gas', 7, None, ['a', 'b'], 1.5, True, {'type': 'nasa'}, ''])
+        out[key] = v
+    return out
+
+
 def _r(rng, lo, hi, nd=4):
     return round(rng.uniform(lo, hi), nd)
 
@@ -153,7 +236,7 @@ def g_constant(rng):
                       ('S', 0, 1e-2), ('F', -5, 5), ('G', -5, 5)):
         if rng.random() < 0.7:
             n[k] = _r(rng, lo, hi, 6)
-    n['notes'] = rng.choice(NOTES)
+    n['notes'] = g_notes(rng)
     return n
 
 
@@ -240,7 +323,7 @@ def g_statmech(rng, name, rich=True, depth=0):
         sm['elec'] = g_constant(rng)          # presets['constant'] puts it in the elec slot
     sm['elements'] = g_elements(rng, allow_none=True)
     sm['smiles'] = rng.choice(SMILES)
-    sm['notes'] = rng.choice(NOTES)
+    sm['notes'] = g_notes(rng)
     if rng.random() < 0.3:
         sm['misc_models'] = [g_cov(rng) for _ in range(rng.randint(1, 2))]
         if rng.random() < 0.3:
@@ -258,7 +341,7 @@ def g_reference(rng, name, elements):
     model = S.gen_statmech(rng, name=name, gas=rng.random() < 0.5, with_elements=False)
     return {'type': 'Reference', 'name': name, 'phase': rng.choice(['G', 'S', None]),
             'elements': elements, 'T_ref': rng.choice([298.15, 298.15, _r(rng, 200, 600, 2)]),
-            'HoRT_ref': _rz(rng, -150, 50, 5), 'model': model, 'notes': rng.choice(NOTES),
+            'HoRT_ref': _rz(rng, -150, 50, 5), 'model': model, 'notes': g_notes(rng),
             'smiles': rng.choice(SMILES)}
 
 
@@ -347,7 +430,7 @@ def g_empirical(rng, kind, name, rich=True, phase=None):
     if not rich:
         sp['plain'] = True
         return sp
-    sp['notes'] = rng.choice(NOTES)
+    sp['notes'] = g_notes(rng)
     sp['smiles'] = rng.choice(SMILES)
     # explicit option values, None included: Nasa9 defaults to n_sites=1, Nasa / Shomate to None,
     # so "key absent" and "value None" are different objects for some of the classes
@@ -391,7 +474,7 @@ def g_bep(rng, omkm=False, named=False):
     n = {'type': 'omkm.BEP' if omkm else 'BEP', 'slope': _rz(rng, 0, 1), 'intercept': _rz(rng, 0, 60, 3),
          'name': rng.choice(['BEP_CH', 'bep 2'] + ([] if named else [None])),
          'descriptor': rng.choice(DESCRIPTORS), 'elements': g_elements(rng, allow_none=True),
-         'notes': rng.choice(NOTES)}
+         'notes': g_notes(rng)}
     if omkm:
         n['direction'] = rng.choice([None, 'cleavage', 'synthesis'])
     return n
@@ -421,7 +504,7 @@ def g_reaction(rng, cls='Reaction', pool=None, rich=None, kinds=None, names=None
     node = {'type': cls, 'reactants': pick[:nr], 'reactants_stoich': _stoich(rng, nr),
             'products': pick[nr:], 'products_stoich': _stoich(rng, npd),
             'transition_state': None, 'transition_state_stoich': None,
-            'notes': rng.choice(NOTES), 'rich': rich}
+            'notes': g_notes(rng), 'rich': rich}
     ts = rng.choice(['none', 'species', 'bep'])
     if ts == 'species':
         node['transition_state'] = [rng.choice(keys)]
@@ -508,7 +591,7 @@ def _add_bep_reactions(rng, node, pool, rich, shared):
 
 def g_lsr(rng):
     floats = rng.random() < 0.4
-    n = {'type': 'LSR', 'slope': _rz(rng, 0, 1), 'intercept': _rz(rng, -30, 30, 3), 'notes': rng.choice(NOTES)}
+    n = {'type': 'LSR', 'slope': _rz(rng, 0, 1), 'intercept': _rz(rng, -30, 30, 3), 'notes': g_notes(rng)}
     if floats:
         n['reaction'] = _r(rng, -80, 0, 3)
         n['surf_species'] = rng.choice([0.0, _r(rng, -500, 0, 3)])
@@ -565,7 +648,11 @@ REASSIGN_CLASSES = ['reassign:%s.%s:%s' % (c, a, k) for c, lst in REASSIGN.items
 REQUIRED_CLASSES = REQUIRED_CLASSES + REASSIGN_CLASSES + [
     'reassign:nested_in_StatMech', 'reassign:nested_in_reaction',
     # coefficient sets handed to the CONSTRUCTOR as list / tuple (SingleNasa9 stores what it is given)
-    'SingleNasa9:ctor_a_list', 'SingleNasa9:ctor_a_tuple', 'Nasa9:ctor_a_list', 'Nasa9:ctor_a_tuple']
+    'SingleNasa9:ctor_a_list', 'SingleNasa9:ctor_a_tuple', 'Nasa9:ctor_a_list', 'Nasa9:ctor_a_tuple',
+    # user notes whose keys are the serialisation's bookkeeping keys and whose values are what the
+    # library itself writes there (exact / case variant)
+    'notes:type=lib', 'notes:type=case', 'notes:class=case', 'notes:reaction_str=lib', 'notes:_id=any',
+    ] + ['fresh_process:' + c for c in TOP_CLASSES]     # decoded in an interpreter that imported only the hook
 
 
 def _reval(rng, kind, cont, node):
@@ -645,7 +732,7 @@ def _reval(rng, kind, cont, node):
     if kind == 'norm':
         return [_r(rng, 0.5, 20, 3) for _ in node['reactions']]
     if kind == 'notes':
-        return copy.deepcopy(rng.choice(NOTES))
+        return g_notes(rng)
     if kind == 'name':
         return rng.choice(NAMES)
     if kind == 'smiles':
@@ -992,6 +1079,21 @@ def directed(tier):
         for sp in rx['species'].values():
             sp['a_as'] = cont
         D.append({'cls': 'Reaction', 'obj': rx, 'cycles': 1, 'conds': g_conds(r4)[:2]})
+    # round 5: notes with bookkeeping keys x the values the library writes under them
+    bkv = _bookkeeping_values()
+    k5 = 0
+    for cls in ('ConstantMode', 'StatMech', 'Nasa', 'Nasa9', 'Shomate', 'Reference', 'BEP', 'omkm.BEP', 'LSR',
+                'Reaction', 'ChemkinReaction', 'SurfaceReaction'):
+        for j in range(3):
+            tv = bkv['type'][(k5 + j) % len(bkv['type'])]
+            cv = bkv['class'][(k5 + j) % len(bkv['class'])]
+            note = [{'source': 'Burcat', 'type': tv},
+                    {'source': 'Burcat', 'type': tv.upper(), 'class': cv.upper(), '_id': tv},
+                    {'source': 'Burcat', 'reaction_str': bkv['reaction_str'][0], 'type': tv, 'class': ' ' + cv}][j]
+            node = g_top(r4, cls)
+            node['notes'] = note
+            D.append({'cls': cls, 'obj': node, 'cycles': 1 + j % 2, 'conds': g_conds(r4)[:2]})
+        k5 += 1
     # the same inside containers: mode inside a species, species inside a reaction (set)
     for cont in SEQ:
         for vk in ('HarmonicVib', 'QRRHOVib'):
@@ -1875,12 +1977,12 @@ def _unserialisable(o, owner, key, depth=0):
 # =====================================================================================
 def _walk_nodes(node, depth=0):
     """yield (node, depth) for every object node of a spec tree"""
-    if not isinstance(node, dict) or 'type' not in node:
+    if not isinstance(node, dict) or not isinstance(node.get('type'), str):
         return
     yield node, depth
     for k, v in node.items():
-        if k == 'probe_reaction':
-            continue
+        if k in ('probe_reaction', 'notes', 'reassign', 'elements'):
+            continue                    # user data (may itself carry a 'type' key), not object nodes
         if isinstance(v, dict) and 'type' in v:
             yield from _walk_nodes(v, depth + 1)
         elif isinstance(v, dict) and k == 'species':
@@ -1916,6 +2018,22 @@ def _classify(spec, ctx):
                 ctx.cls('StatMech:plain')
         if t in ('SingleNasa9', 'Nasa9') and node.get('a_as') in ('list', 'tuple'):
             ctx.cls('%s:ctor_a_%s' % (t, node['a_as']))
+        cand = [node.get('notes')] + [v for a, c, v in node.get('reassign') or [] if a == 'notes']
+        for nt in cand:
+            if isinstance(nt, dict) and nt.get('source') == 'Burcat':
+                bk = _bookkeeping_values()
+                for k in BOOKKEEPING_KEYS:
+                    if k in nt:
+                        v = nt[k]
+                        pool = bk.get(k) or []
+                        if k == '_id':
+                            ctx.cls('notes:_id=any')
+                        elif isinstance(v, str) and v in pool:
+                            ctx.cls('notes:%s=lib' % k)
+                        elif isinstance(v, str) and v.strip().lower() in [x.lower() for x in pool]:
+                            ctx.cls('notes:%s=case' % k)
+                        else:
+                            ctx.cls('notes:%s=other' % k)
         for a_, c_, _v in node.get('reassign') or []:
             ctx.cls('reassign:%s.%s:%s' % (t, a_, c_))
             if depth and t in MODE_CLASSES:
@@ -2103,6 +2221,22 @@ def _telemetry_no_p_adj(ctx):
     ex[k] = ex.get(k, 0) + 1
 
 
+def _telemetry_notes_class(ctx):
+    """notes = {'class': <an exact registry string>}: by the design of the object hook this nested
+    dictionary IS a pMuTT object to the decoder; recorded, no verdict"""
+    from pmutt.statmech import ConstantMode
+    from pmutt.io.json import pmuttEncoder, json_to_pmutt
+    ex = ctx.extra.setdefault('notes_with_registry_class_string', {})
+    try:
+        o = ConstantMode(U=1.0, notes={'source': 'x', 'class': "<class 'pmutt.eos.IdealGasEOS'>"})
+        m = json.loads(json.dumps(o, cls=pmuttEncoder), object_hook=json_to_pmutt)
+        k = 'notes_kept_a_dict' if isinstance(getattr(m, 'notes', None), dict) else \
+            'notes_became_%s' % type(getattr(m, 'notes', None)).__name__
+    except Exception as e:                         # noqa
+        k = 'raises_' + type(e).__name__
+    ex[k] = ex.get(k, 0) + 1
+
+
 def _telemetry_reassign(ctx):
     """Assignments outside the documented attribute type (coefficient arrays documented as ndarray
     given as list / tuple, numpy integer scalars): recorded, no verdict (see ASSUMPTIONS)."""
@@ -2130,6 +2264,160 @@ def _telemetry_reassign(ctx):
         except Exception as e:                     # noqa
             k = '%s:raises_%s' % (label, type(e).__name__)
         ex[k] = ex.get(k, 0) + 1
+
+
+# ---- decode in a fresh interpreter that has imported nothing but the hook -----------------------
+_FRESH = {'batch': [], 'seq': 0}
+FRESH_BATCH = 250
+_CHILD = r'''
+import sys, json
+repo, verif, src, dst = sys.argv[1:5]
+sys.path.insert(0, verif)
+sys.path.insert(0, repo)
+import warnings
+warnings.simplefilter('ignore')
+from pmutt.io.json import json_to_pmutt          # the only pMuTT import a reader of a saved file makes
+import pmutt, os
+assert os.path.realpath(os.path.dirname(os.path.dirname(pmutt.__file__))) == os.path.realpath(repo), pmutt.__file__
+loaded_before = sorted(m for m in sys.modules if m.startswith('pmutt'))
+docs = json.load(open(src))
+out = []
+decoded = []
+for d in docs:
+    try:
+        decoded.append((d, json.loads(d['text'], object_hook=json_to_pmutt), None))
+    except Exception as e:
+        decoded.append((d, None, e))
+from vf.props import c11                          # helpers only (imports no pMuTT module by itself)
+import numpy as np
+np.seterr(all='ignore')
+for d, o, e in decoded:
+    if e is not None:
+        out.append({'id': d['id'], 'exc': type(e).__name__, 'message': str(e)[:200]})
+    else:
+        out.append(dict(c11.fresh_eval(o, d['conds']), id=d['id']))
+json.dump({'results': out, 'loaded_before_decode': loaded_before}, open(dst, 'w'))
+'''
+
+
+def fresh_eval(o, conds):
+    """what is compared between the in-process decode and the fresh-process decode of one text:
+    strict structural form + the values of the top object's getters"""
+    res = {'canon': canon_obj(o), 'getters': {}}
+    if is_pm(o):
+        has_ts = getattr(o, 'transition_state', None) is not None
+        for name, plan in _getter_plans(type(o)):
+            for k, cond in enumerate(conds[:2]):
+                kw = _plan_kwargs(name, plan, cond, has_ts, None)
+                if kw is None:
+                    break
+                try:
+                    v = getattr(o, name)(**kw)
+                except Exception as e:             # noqa
+                    res['getters']['%s|%d' % (name, k)] = ['raises:' + type(e).__name__, []]
+                    continue
+                sig, flat = _flatten(v)
+                res['getters']['%s|%d' % (name, k)] = [sig, [repr(x) for x in flat]]
+    return res
+
+
+def _in_worker():
+    a = sys.argv
+    return len(a) >= 7 and os.path.basename(a[0]) == 'worker.py'
+
+
+def _last_index_of_shard(tier):
+    """index of the last case this shard will run (the runner gives shard / nshards on argv)"""
+    try:
+        shard, nshards = int(sys.argv[4]), int(sys.argv[5])
+        total = len(directed(tier)) + core.n_random(sys.modules[__name__], tier)
+        last = total - 1
+        while last >= 0 and last % nshards != shard:
+            last -= 1
+        return last
+    except Exception:                              # noqa
+        return None
+
+
+def _fresh_sampled(ctx):
+    idx = ctx.case_index or 0
+    return (not _in_worker()) or idx < len(TOP_CLASSES) or idx % 12 == 5
+
+
+def _fresh_queue(ctx, spec, top, txt1, o1):
+    _FRESH['seq'] += 1
+    _FRESH['batch'].append({'id': _FRESH['seq'], 'text': txt1, 'conds': spec['conds'], 'top': top, 'o1': o1,
+                            'spec': spec, 'index': ctx.case_index})
+
+
+def _fresh_flush_if_due(ctx):
+    if not _FRESH['batch']:
+        return
+    due = (not _in_worker()) or len(_FRESH['batch']) >= FRESH_BATCH
+    if not due:
+        if '_last' not in _FRESH:
+            _FRESH['_last'] = _last_index_of_shard(ctx.tier)
+        due = _FRESH['_last'] is None or (ctx.case_index is not None and ctx.case_index >= _FRESH['_last'])
+    if due:
+        batch, _FRESH['batch'] = _FRESH['batch'], []
+        _fresh_run(ctx, batch)
+
+
+def _fresh_run(ctx, batch):
+    import subprocess
+    src = os.path.join(ctx.tmpdir, 'fresh_%d.json' % batch[0]['id'])
+    dst = src + '.out'
+    with open(src, 'w') as f:
+        json.dump([{'id': b['id'], 'text': b['text'], 'conds': b['conds']} for b in batch], f)
+    env = {k: v for k, v in os.environ.items() if k != 'PYTHONPATH'}
+    env.update(MPLBACKEND='Agg', OMP_NUM_THREADS='1', OPENBLAS_NUM_THREADS='1', MKL_NUM_THREADS='1')
+    try:
+        r = subprocess.run([sys.executable, '-c', _CHILD, core.repo_path(), core.VERIF, src, dst], env=env,
+                           capture_output=True, text=True, timeout=900)
+        if r.returncode != 0 or not os.path.exists(dst):
+            raise RuntimeError('exit %s: %s' % (r.returncode, (r.stderr or '')[-600:]))
+        got = {x['id']: x for x in json.load(open(dst))['results']}
+    except Exception as e:                         # noqa: the harness failed, not pMuTT
+        ctx.inconc('harness', 'fresh_process', error=str(e)[:800])
+        return
+    keep = (ctx.spec, ctx.case_index)
+    try:
+        for b in batch:
+            ctx.spec, ctx.case_index = b['spec'], b['index']        # witnesses point at the document's case
+            top = b['top']
+            g = got.get(b['id'])
+            if g is None:
+                ctx.inconc('harness', 'fresh_process', error='no result for document')
+                continue
+            ctx.cls('fresh_process:' + top)
+            if 'exc' in g:
+                ctx.fail('J2', {'class': top, 'step': 'fresh_process', 'exc': g['exc']}, message=g.get('message'))
+                continue
+            want = json.loads(json.dumps(fresh_eval(b['o1'], b['conds'])))
+            diffs = set()
+            canon_diff(g['canon'], want['canon'], top, '<top>', diffs)
+            if not diffs:
+                ctx.held('J2')
+            for owner, attr in sorted(diffs):
+                ctx.fail('J2', {'class': owner, 'step': 'fresh_process', 'attr': attr},
+                         top=top, fresh=_short(g['canon'] if attr == '<top>' else None))
+            if diffs:
+                continue
+            for key, (sig, flat) in want['getters'].items():
+                gs = g['getters'].get(key)
+                name = key.split('|')[0]
+                if gs is None or gs[0] != sig:
+                    ctx.fail('J3', {'class': top, 'step': 'fresh_process', 'getter': name, 'what': 'shape'},
+                             fresh=gs and gs[0], in_process=sig)
+                    continue
+                fa, fb = _nan_pair([float(x) for x in flat], [float(x) for x in gs[1]])
+                e = ctx.err(fb, fa)
+                if e <= TOL:
+                    ctx.held('J3')
+                else:
+                    ctx.fail('J3', {'class': top, 'step': 'fresh_process', 'getter': name}, err=e)
+    finally:
+        ctx.spec, ctx.case_index = keep
 
 
 def _encode(ctx, obj, top, repeat):
@@ -2182,11 +2470,19 @@ def _telemetry_extended_lsr(ctx):
 
 
 def run_case(spec, ctx):
+    try:
+        _run_case(spec, ctx)
+    finally:
+        _fresh_flush_if_due(ctx)
+
+
+def _run_case(spec, ctx):
     from pmutt.io.json import json_to_pmutt
     if spec.get('telemetry'):
         _telemetry_extended_lsr(ctx)
         _telemetry_no_p_adj(ctx)
         _telemetry_reassign(ctx)
+        _telemetry_notes_class(ctx)
         return
     top = spec['cls']
     _classify(spec, ctx)
@@ -2209,6 +2505,8 @@ def run_case(spec, ctx):
     o1 = _decode(ctx, txt1, top, False)
     if o1 is core.NOVALUE:
         return
+    if _fresh_sampled(ctx):
+        _fresh_queue(ctx, spec, top, txt1, o1)
     cmp1 = Cmp(ctx, spec['conds'], probe)
     cmp1.dirty = cmp1.obj(obj, o1)
     if type(o1) is not type(obj):
